@@ -7,6 +7,7 @@ Proxy's client-side filtering.
     annotation chunk: 4s id (ASCII) | I length | data
 """
 import socket
+import time
 import struct
 import zlib
 
@@ -119,7 +120,20 @@ class RawClient:
             self.sock = socket.socket(socket.AF_INET, socket.SOCK_STREAM)
             self.sock.setsockopt(socket.IPPROTO_TCP, socket.TCP_NODELAY, 1)
         self.sock.settimeout(timeout)
-        self.sock.connect(location)
+        if isinstance(location, str):
+            # a unix-domain connect() fails at once with EAGAIN while the listener's backlog is full (TCP would wait): that is the kernel's
+            # queue, not the daemon's answer, so the client just tries again for a while
+            end = time.time() + max(timeout or 5.0, 5.0)
+            while True:
+                try:
+                    self.sock.connect(location)
+                    break
+                except BlockingIOError:
+                    if time.time() > end:
+                        raise
+                    time.sleep(0.005)
+        else:
+            self.sock.connect(location)
         self.seq = 0
 
     def local(self):
